@@ -647,7 +647,8 @@ def check_palette(ctx: Ctx, entries, colors, bright, order):
                 return tuple(e)
             return tuple(e[:4]) if e[3] is not None else tuple(e[:3])
 
-        scr.register_palette([form(e) for e in entries] + [("alias:" + e[0], e[0]) for e in entries])
+        # (an iterable, as documented: a generator here)
+        scr.register_palette(x for x in [form(e) for e in entries] + [("alias:" + e[0], e[0]) for e in entries])
     cols = 4
     scr.start()
     out.take()
